@@ -572,7 +572,7 @@ def extract_segment(relpath, qual, ann):
             spec.append(f"        /*@L {label}*/ {t}\n"); labels.append(label)
     rs, re_ = it["ret"] if it["ret"] else (None, None)
     rett = src[rs:re_].decode() if rs is not None else "()"
-    if k1 != len(st):
+    if k1 != len(st) or (nested_block and ann.get("seg_ret")):
         rett = ann.get("seg_ret", rett)
     name = ann["seg_name"]
     retname = ann.get("ret", "r")
